@@ -173,6 +173,61 @@ def wfSetL (m : Nat) (deep : List (List Nat)) : List Tree → Bool
   | t :: ts => wfSet (m * t.info.setCalls) (strip t.info.tag deep) t && wfSetL m deep ts
 end
 
+/- a setter writes only objects that HAVE a `save_interval`: no `self.save_interval = v` in a struct
+    without the field, no direct assignment path that ends in an object without it (in Rust this is a
+    compile-time fact; for the regenerated table it is a decidable obligation).  Needed for
+    `set_save_interval` of a NESTED object to be undone exactly by the top-level cascade. -/
+mutual
+def wfSetOnly (m : Nat) (deep : List (List Nat)) : Tree → Bool
+  | .node s _ _ _ kids =>
+    (!setHit m s deep || s.hasInterval) && wfSetOnlyL m (setDeepNext m s deep) kids
+def wfSetOnlyL (m : Nat) (deep : List (List Nat)) : List Tree → Bool
+  | [] => true
+  | t :: ts => wfSetOnly (m * t.info.setCalls) (strip t.info.tag deep) t && wfSetOnlyL m deep ts
+end
+
+/- `q` holds of every subtree whose root carries a `save_interval` -/
+mutual
+def everyIvT (q : Tree → Bool) : Tree → Bool
+  | .node s i iv h kids => (!s.hasInterval || q (.node s i iv h kids)) && everyIvL q kids
+def everyIvL (q : Tree → Bool) : List Tree → Bool
+  | [] => true
+  | t :: ts => everyIvT q t && everyIvL q ts
+end
+
+/-- the OWN setter of every interval-carrying object (called directly on the nested object, not through
+    the top-level cascade) writes only objects that have a `save_interval` -/
+def setClean (t : Tree) : Bool := everyIvT (wfSetOnly 1 []) t
+
+/-! ### writes to the intervals of NESTED objects, behind the back of the top-level cascade
+
+  A user can give a component its own interval through its `pub save_interval` field
+  (`sim.loco_con.loco_vec[0].fc.save_interval = v`), call a nested object's own setter
+  (`sim.loco_con.loco_vec[1].set_save_interval(v)`, `sim.loco_con.set_save_interval(v)`), or swap a
+  locomotive that was configured elsewhere into `loco_vec`.  The nested object is addressed by its
+  position `k` among the nodes that carry a `save_interval`, in pre-order — i.e. the k-th line of
+  `dump` whose interval column is not `-` (0 = the outermost object that has an interval). -/
+mutual
+/-- number of nodes that carry a `save_interval` -/
+def cntT : Tree → Nat
+  | .node s _ _ _ kids => (if s.hasInterval then 1 else 0) + cntL kids
+def cntL : List Tree → Nat
+  | [] => 0
+  | t :: ts => cntT t + cntL ts
+end
+
+/- apply `f` to the subtree rooted at the k-th interval-carrying node (pre-order); `k` out of range: no-op -/
+mutual
+def atT (f : Tree → Tree) (k : Nat) : Tree → Tree
+  | .node s i iv h kids =>
+    if s.hasInterval then
+      (if k = 0 then f (.node s i iv h kids) else .node s i iv h (atL f (k - 1) kids))
+    else .node s i iv h (atL f k kids)
+def atL (f : Tree → Tree) (k : Nat) : List Tree → List Tree
+  | [] => []
+  | t :: ts => if k < cntT t then atT f k t :: ts else t :: atL f (k - cntT t) ts
+end
+
 /-! ### the simulation drivers
 
   Every simulation's `step()` is `solve_step()?; save_state(); <advance counters>` and every `walk…`
@@ -238,9 +293,20 @@ def newAct (v : Option Nat) (t : Tree) : NewAct → Tree
 def newT (prog : List NewAct) (v : Option Nat) (t : Tree) : Tree :=
   prog.foldl (newAct v) t
 
+/-- raw write of the k-th interval-carrying node's `save_interval` field (nothing else changes) -/
+def pokeT (k : Nat) (v : Option Nat) : Tree → Tree := atT (assignRoot v) k
+
+/-- the k-th interval-carrying node's OWN `set_save_interval(v)`, cascading through ITS subtree only
+    (exactly what `newAct (.callKid _)` does for a direct child).  A node without a setter
+    (`setSelf = 0`, no calls, no direct assignments: the powertrain components, the friction brake)
+    is left unchanged. -/
+def setAtT (k : Nat) (v : Option Nat) : Tree → Tree := atT (setT 1 [] v) k
+
 /-- operations a user (the harness) performs on a simulation object -/
 inductive Op where
   | set (v : Option Nat)               -- `sim.set_save_interval(v)`
+  | poke (k : Nat) (v : Option Nat)    -- `<k-th nested object>.save_interval = v` (pub field)
+  | setAt (k : Nat) (v : Option Nat)   -- `<k-th nested object>.set_save_interval(v)`
   | step                               -- `sim.step()` returning `Ok`
   | stepFail                           -- `sim.step()` returning `Err`
   | walk (initSaves k : Nat) (fail : Bool)
@@ -250,6 +316,8 @@ inductive Op where
 
 def opR (order : List Phase) (t : Tree) : Op → Res Tree
   | .set v => .ok (setT 1 [] v t)
+  | .poke k v => .ok (pokeT k v t)
+  | .setAt k v => .ok (setAtT k v t)
   | .step => iterOk order t
   | .stepFail => iterFail order t
   | .walk s k f => walkR order s k f t
@@ -273,7 +341,19 @@ def dumpL (pfx : String) (k : Nat) : List Tree → List String
 end
 
 /-- one line per node that has a counter, a history or an interval, in pre-order; the path of a
-    nested object is `<parent>.<field>#<position among the parent's nested objects>` -/
+    nested object is `<parent>.<field>#<position among the parent's nested objects>`.
+    The index `k` of `Op.poke k` / `Op.setAt k` is the position of the node's line among the lines
+    whose interval column is not `-` (`ivPaths` lists them). -/
 def dump (t : Tree) : List String := dumpT t.info.name t
+
+/- paths (as in `dump`) of the interval-carrying nodes, in the order `Op.poke` / `Op.setAt` count them -/
+mutual
+def ivPathsT (p : String) : Tree → List String
+  | .node s _ _ _ kids => (if s.hasInterval then [p] else []) ++ ivPathsL p 0 kids
+def ivPathsL (pfx : String) (k : Nat) : List Tree → List String
+  | [] => []
+  | t :: ts => ivPathsT (pfx ++ "." ++ t.info.name ++ "#" ++ toString k) t ++ ivPathsL pfx (k + 1) ts
+end
+def ivPaths (t : Tree) : List String := ivPathsT t.info.name t
 
 end Altrios.Hist
